@@ -23,6 +23,8 @@ OP_SIG, OP_WRITE, OP_READ, OP_TIMED_WRITE, OP_EXEC_WRITE, OP_SERV_SIG, OP_CONFIG
 
 
 class GattChar:
+    max_write_without_response_size = 0         # what bleak reports for the handle (0: unknown)
+
     def __init__(self, uuid, iid, service_uuid, kind="data"):
         self.uuid, self.iid, self.service_uuid, self.kind = uuid, iid, service_uuid, kind
         self.properties = ["read", "write"]
@@ -285,6 +287,7 @@ class FakeBleClient:
         self.log = []                 # ("w"|"r", handle iid, bytes)
         self.gatt_error_at = None     # raise BleakError at the n-th GATT operation from now
         self.disconnect_delay = 0.0
+        self.oversize = []
         self.ops = 0
         self.notify = {}
         self.services = None
@@ -310,14 +313,27 @@ class FakeBleClient:
     async def get_characteristic_iid(self, h):
         return h.iid
 
+    @property
+    def mtu_size(self):
+        return self.att_payload + 3
+
     def determine_fragment_size(self, overhead, handle):
-        return self.att_payload - overhead
+        # the tree's own size rule (aiohomekit/controller/ble/bleak.py) on this link's MTU and the handle's reported write size
+        from aiohomekit.controller.ble.bleak import AIOHomeKitBleakClient
+        return AIOHomeKitBleakClient.determine_fragment_size(self, overhead, handle)
+
+    def carried(self, h):
+        """Largest GATT write this link carries for the handle."""
+        return max(h.max_write_without_response_size or 0, self.att_payload)
 
     async def write_gatt_char(self, h, data, response):
         await asyncio.sleep(0)
         self._maybe_fail()
         data = bytes(data)
         self.log.append(("w", h.iid, data))
+        if len(data) > self.carried(h):
+            self.oversize.append((h.iid, len(data), self.carried(h)))
+            raise BleakError(f"simulated link: a write of {len(data)} bytes does not fit ({self.carried(h)})")
         self.acc.on_write(h, data)
 
     async def read_gatt_char(self, h):
